@@ -13,7 +13,7 @@ CONSTANTS Greetings,      \* subset of {"valid", "invalid", "cut_viable", "cut_b
 
 VARIABLES w, pc, g, res
 vars == <<w, pc, g, res>>
-NoPic == [embedded |-> -1, file |-> -1, hasMime |-> FALSE, mime |-> <<>>, limit |-> 1, embedded_ack |-> 0, file_ack |-> 0, vary |-> FALSE, ackp |-> FALSE]
+NoPic == [embedded |-> -1, file |-> -1, hasMime |-> FALSE, mime |-> <<>>, limit |-> 1, embedded_ack |-> 0, file_ack |-> 0, vary |-> FALSE, ackp |-> FALSE, tfirst |-> FALSE]
 PW == <<112>>
 GreetLine(k) == Line("greet", <<>>, <<k>>, 0, 0)
 Init == \E gk \in Greetings, p \in Passwords, a \in Auths :
@@ -72,5 +72,5 @@ Inv_C18 == w.viol = <<>>
 Inv_Iff == (pc = "done" /\ res = "ok") => (g = "valid" /\ (w.hasPw => w.phase = "up"))
 AllG == {"valid", "invalid", "cut_viable", "cut_bad"}
 AllP == {"none", "good", "bad"}
-AllA == {"ok", "ack", "ack4", "garbage", "eof", "partial"}
+AllA == {"ok", "ack", "ack4", "ack5", "garbage", "eof", "partial"}
 =============================================================================
